@@ -263,7 +263,7 @@ func newEnv(eng string, idx bleve.Index, nids int) (*env, error) {
 		return nil, err
 	}
 	e := &env{eng: eng, idx: idx, rd: rd, live: live}
-	if eng == qs.EngScorch {
+	if qs.IsScorch(eng) {
 		// every doc number from 0 to two beyond the largest live one: live
 		// documents, deleted ones between them, segment boundaries, beyond
 		top := uint64(1)
@@ -341,6 +341,7 @@ type corpusT struct {
 	// corpus JSON per engine, in that engine's rank order
 	corpus map[string][]any
 	rankOf map[string]map[int]int // engine -> external doc id -> rank
+	dirs   []string
 }
 
 func (ct *corpusT) close() {
@@ -349,6 +350,9 @@ func (ct *corpusT) close() {
 	}
 	for _, i := range ct.idx {
 		i.Close()
+	}
+	for _, d := range ct.dirs {
+		os.RemoveAll(d)
 	}
 }
 
@@ -366,19 +370,26 @@ func liveOf(h qs.History) map[int]*qs.Doc {
 	return live
 }
 
-func buildCorpus(seed int64, hist qs.History, nids int) (*corpusT, error) {
+func buildCorpus(c *core.Ctx, seed int64, hist qs.History, nids int) (*corpusT, error) {
 	im := qs.Mapping()
 	live := liveOf(hist)
 	ct := &corpusT{seed: seed, hist: hist, live: live, nids: nids, idx: map[string]bleve.Index{}, envs: map[string]*env{},
 		corpus: map[string][]any{}, rankOf: map[string]map[int]int{}}
-	r := rand.New(rand.NewSource(seed ^ 0x5eed))
 	for _, eng := range qs.Engines {
-		idx, err := qs.NewIndex(eng, im)
+		r := rand.New(rand.NewSource(seed ^ 0x5eed))
+		dir := ""
+		mergeAfter := -1
+		if eng == qs.EngScorchMerged {
+			dir = c.TempDir("c08idx")
+			ct.dirs = append(ct.dirs, dir)
+			mergeAfter = len(hist)/2 + int(uint64(seed)%2)
+		}
+		idx, err := qs.NewIndex(eng, im, dir)
 		if err != nil {
 			return nil, err
 		}
 		ct.idx[eng] = idx
-		if err := qs.Apply(idx, hist, r); err != nil {
+		if err := qs.ApplyMerging(idx, hist, r, mergeAfter); err != nil {
 			return nil, err
 		}
 		e, err := newEnv(eng, idx, nids)
@@ -421,7 +432,14 @@ func (ct *corpusT) runQuery(r *rand.Rand, eng string, o optsT, q *qs.Node, nprog
 	e := ct.envs[eng]
 	idmap := func(id int) (int, bool) { rk, ok := ct.rankOf[eng][id]; return rk, ok }
 	rc := &recT{Seed: ct.seed, Hist: ct.hist, Eng: eng, Opts: o, Q: q, Corpus: ct.corpus[eng], QJSON: q.JSONMap(idmap), NLive: len(e.live)}
-	rc.Prone = qs.ProneTo(qs.FeaturesOf(q), eng, o.Score == "none" && !o.TV)
+	var k1 qs.K1Set
+	if qs.IsScorch(eng) {
+		var err error
+		if k1, err = qs.AnnotateK1(q, ct.idx[eng]); err != nil {
+			return rc, "", err
+		}
+	}
+	rc.Prone = qs.ProneTo(qs.FeaturesOf(q, k1), eng, o.Score == "none" && !o.TV)
 	bq := q.Bleve(nil)
 	enum, bad, err := enumerate(e, bq, o)
 	if err != nil || bad != "" {
@@ -581,7 +599,7 @@ func engineB(c *core.Ctx) error {
 							h = append(h, last)
 						}
 					}
-					ct, err := buildCorpus(seed, h, nids)
+					ct, err := buildCorpus(c, seed, h, nids)
 					if err != nil {
 						mu.Lock()
 						if firstErr == nil {
@@ -606,12 +624,6 @@ func engineB(c *core.Ctx) error {
 					var localBad []badT
 					for k := 0; k < nQ; k++ {
 						q := qs.GenQuery(r, qs.Facts{NIDs: nids, Docs: liveDocs}, depth)
-						if err := qs.AnnotateK1(q, ct.idx[qs.EngScorch]); err != nil {
-							mu.Lock()
-							firstErr = err
-							mu.Unlock()
-							break
-						}
 						for _, eng := range qs.Engines {
 							o := allOpts[r.Intn(len(allOpts))]
 							rc, bad, err := ct.runQuery(r, eng, o, q, nProg, maxCalls)
@@ -666,7 +678,7 @@ func reportBad(c *core.Ctx, rc *recT, msg string) {
 	}
 	sig := ""
 	switch {
-	case strings.HasPrefix(msg, "panic:") && rc.Eng == qs.EngScorch && rc.NLive == 0 && len(last) > 0 && last[len(last)-1].Op == "adv":
+	case strings.HasPrefix(msg, "panic:") && qs.IsScorch(rc.Eng) && rc.NLive == 0 && len(last) > 0 && last[len(last)-1].Op == "adv":
 		sig = SigEmpty
 	case strings.HasPrefix(msg, "panic:"):
 		sig = fmt.Sprintf("panic:%s:%s", rc.Eng, rc.Q.Shape())
@@ -864,13 +876,68 @@ type caseA struct {
 	prog []qs.Call
 }
 
+type srcA struct {
+	cfg    string
+	layout qs.Layout // = SegSizes / Deleted of the cfg
+	engs   []string
+}
+
 func engineA(c *core.Ctx) error {
-	cfg := "MCSearchers_c08_replay_q.cfg"
+	l22 := qs.Layout{Segs: []int{2, 2}, Deleted: []int{1}}
+	l4 := qs.Layout{Segs: []int{4}, Deleted: []int{1}}
+	srcs := []srcA{{"MCSearchers_c08_replay_q.cfg", l22, []string{qs.EngScorch, qs.EngUpside}},
+		// one merged segment: the 1-hit postings iterators
+		{"MCSearchers_c08_replay_m.cfg", l4, []string{qs.EngScorchMerged}}}
+	maxCalls := 2
 	if c.Thorough() {
-		cfg = "MCSearchers_c08_replay_t.cfg"
+		srcs[0].cfg = "MCSearchers_c08_replay_t.cfg"
 	}
-	layout := qs.Layout{Segs: []int{2, 2}, Deleted: []int{1}}
-	maxCalls := c.Pick(2, 3)
+	for _, src := range srcs {
+		mc := maxCalls
+		if strings.HasSuffix(src.cfg, "_t.cfg") {
+			mc = 3
+		}
+		if err := engineAOne(c, src, mc); err != nil {
+			return err
+		}
+	}
+	return nil
+}
+
+// hasK1Shape: the tree is one of those excluded from the passing score:none
+// configurations (spec/MCSearchers.tla HasK1)
+func hasK1Shape(v any) bool {
+	m := tlaval.Map(v)
+	kids := func(name string) []any {
+		if x, ok := m[name]; ok {
+			return tlaval.List(x)
+		}
+		return nil
+	}
+	switch tlaval.Str(m["type"]) {
+	case "conj", "disj":
+		for _, k := range kids("qs") {
+			if hasK1Shape(k) {
+				return true
+			}
+		}
+	case "boolean":
+		if len(kids("must")) > 0 && len(kids("should")) >= 2 && tlaval.Int(m["min"]) == 1 {
+			return true
+		}
+		for _, n := range []string{"must", "should", "mustnot", "filter"} {
+			for _, k := range kids(n) {
+				if hasK1Shape(k) {
+					return true
+				}
+			}
+		}
+	}
+	return false
+}
+
+func engineAOne(c *core.Ctx, src srcA, maxCalls int) error {
+	cfg, layout := src.cfg, src.layout
 	var cases []caseA
 	_, err := qs.DumpVars(c, "MCSearchers", cfg, []string{"q", "post", "prog", "calls"}, func(st map[string]any) error {
 		if tlaval.Int(st["calls"]) != maxCalls {
@@ -890,8 +957,12 @@ func engineA(c *core.Ctx) error {
 		if heap > 0 {
 			searcher.DisjunctionHeapTakeover = heap
 		}
-		for _, eng := range qs.Engines {
-			a, err := qs.BuildIndexA(eng, layout)
+		for _, eng := range src.engs {
+			dir := ""
+			if eng == qs.EngScorchMerged {
+				dir = c.TempDir("c08a")
+			}
+			a, err := qs.BuildIndexA(eng, layout, dir)
 			if err != nil {
 				searcher.DisjunctionHeapTakeover = old
 				return fmt.Errorf("engine A index (%s): %v", eng, err)
@@ -916,18 +987,27 @@ func engineA(c *core.Ctx) error {
 							mu.Unlock()
 							return
 						}
-						got, err := a.RunProgram(bq, search.SearcherOptions{}, cs.prog)
-						if err != nil {
-							mu.Lock()
-							ferr = fmt.Errorf("engine A program: %v", err)
-							mu.Unlock()
-							return
+						// the model's results hold for the scored construction and,
+						// outside the K1 shapes, for the score:none one (TLC checks
+						// ResultOK for both)
+						opts := []search.SearcherOptions{{}}
+						if !hasK1Shape(cs.q) {
+							opts = append(opts, search.SearcherOptions{Score: "none"})
 						}
-						c.Eval(1)
-						for k := range got {
-							if got[k] != cs.prog[k].R {
-								reportA(c, eng, heap, cs, got, layout)
-								break
+						for _, o := range opts {
+							got, err := a.RunProgram(bq, o, cs.prog)
+							if err != nil {
+								mu.Lock()
+								ferr = fmt.Errorf("engine A program: %v", err)
+								mu.Unlock()
+								return
+							}
+							c.Eval(1)
+							for k := range got {
+								if got[k] != cs.prog[k].R {
+									reportA(c, eng+"/"+scoreName(o.Score), heap, cs, got, layout)
+									break
+								}
 							}
 						}
 					}
@@ -935,6 +1015,9 @@ func engineA(c *core.Ctx) error {
 			}
 			wg.Wait()
 			a.Close()
+			if dir != "" {
+				os.RemoveAll(dir)
+			}
 			if ferr != nil {
 				searcher.DisjunctionHeapTakeover = old
 				return ferr
@@ -943,11 +1026,11 @@ func engineA(c *core.Ctx) error {
 		searcher.DisjunctionHeapTakeover = old
 	}
 	for _, cs := range cases {
-		c.Distinct("A|" + mustJSON(tlaval.ToJSON(cs.q)) + mustJSON(cs.post) + mustJSON(cs.prog))
+		c.Distinct("A|" + fmt.Sprint(layout) + mustJSON(tlaval.ToJSON(cs.q)) + mustJSON(cs.post) + mustJSON(cs.prog))
 	}
-	c.Extra("engineA_programs", len(cases))
+	c.AddExtra("engineA_programs", int64(len(cases)))
 	k := len(cases) / 3
-	c.Sample(map[string]any{"engineA_query": tlaval.ToJSON(cases[k].q), "postings": cases[k].post, "program_with_spec_results": cases[k].prog})
+	c.Sample(map[string]any{"engineA_query": tlaval.ToJSON(cases[k].q), "postings": cases[k].post, "program_with_spec_results": cases[k].prog, "layout": fmt.Sprint(layout)})
 	return nil
 }
 
@@ -1003,7 +1086,7 @@ func modelFindingEmpty(c *core.Ctx) error {
 	prog := qs.ProgOf(st["prog"])
 	// the real input: index one document, delete it (the only segment is
 	// dropped), term searcher, the program of the counterexample
-	idx, err := qs.NewIndex(qs.EngScorch, qs.Mapping())
+	idx, err := qs.NewIndex(qs.EngScorch, qs.Mapping(), "")
 	if err != nil {
 		return err
 	}
@@ -1072,7 +1155,7 @@ func modelFindingQ2(c *core.Ctx) error {
 	}
 	reproduced := 0
 	for _, eng := range qs.Engines {
-		a, err := qs.BuildIndexA(eng, qs.Layout{Segs: []int{2, 1}})
+		a, err := qs.BuildIndexA(eng, qs.Layout{Segs: []int{2, 1}}, "")
 		if err != nil {
 			return err
 		}
@@ -1140,16 +1223,13 @@ func replay(c *core.Ctx, path string) error {
 			}
 		}
 	}
-	ct, err := buildCorpus(f.Replay.Seed, f.Replay.History, nids)
+	ct, err := buildCorpus(c, f.Replay.Seed, f.Replay.History, nids)
 	if err != nil {
 		return err
 	}
 	defer ct.close()
 	e := ct.envs[f.Replay.Engine]
 	q := f.Replay.Query
-	if err := qs.AnnotateK1(q, ct.idx[qs.EngScorch]); err != nil {
-		return err
-	}
 	// re-run the saved programs (their raw targets) on a fresh searcher each
 	rc, bad, err := ct.runQuery(rand.New(rand.NewSource(1)), f.Replay.Engine, f.Replay.Options, q, 0, 1)
 	if err != nil {
